@@ -518,14 +518,15 @@ func main() {
 		c.Rule(fmt.Sprintf("PKI = one of %d hand-listed topologies (<= %d entities) with every set of <= %d deviations over per-certificate fields "+
 			"{ca 3, pathlen 3 (4 in diamond-tall), eku 5, validity 5, kid 3, badsig 2, pool 3, leaf names 4} and pool order {as listed, reversed}; per-topology caps: RSA/ECDSA <= 1, diamond-tall <= 1 quick / 2 thorough, mesh <= 2. "+
 			"Options: PKIs with < d deviations get the full product 9 instants x 4 usage lists x 3 DNS names (108), PKIs with exactly d deviations get all 9 instants at default options plus all 12 usage x name pairs at one instant (20). "+
-			"ValidateWithStupidDetail runs on every default-usage case (full) or at instants 0 and 5 (star). A case is non-trivial when Verify returned at least one chain.",
+			"ValidateWithStupidDetail runs on every default-usage case (full) or at instants 0 and 5 (star). Every case is also compared with the reference enumeration of the chains that satisfy the statement (completeness / non-vacuity, see assumptions). A case is non-trivial when Verify returned at least one chain.",
 			len(tops), 6, maxD))
 		c.Assume("crypto/x509 parses the minted DER and decides signature validity, CA flag, path length, EKU, validity and names for the oracle",
 			"certificates are minted with zcrypto x509.CreateCertificate (through fx.Mint); a certificate that either parser rejects stops the run as broken",
 			"roots are not required to be CA certificates or within a path-length limit (the statement speaks of intermediates)",
 			"self-issued intermediates may or may not count towards a path-length limit",
 			"at an instant equal to an end of the common window both neighbouring classes are accepted; a one-instant window may be listed as never-valid",
-			"EKU: a chain is flagged only when some certificate with an EKU list permits none of the requested usages (SGC counts as serverAuth, as coded)",
+			"EKU: a chain satisfies the request when ONE requested usage is permitted by every certificate of the chain (usages are 'a constraint down the chain', VerifyOptions.KeyUsages; no EKU list or anyExtendedKeyUsage permits everything, SGC counts as serverAuth as coded, a requested ExtKeyUsageAny accepts every chain)",
+			"completeness is not promised by the statement and is demanded only as a non-vacuity guard: a chain that satisfies every clause under the strictest reading (crypto/x509-based enumeration over the supplied pools) must be returned unless a documented rule of the search explains its absence — leaf in Roots (one-certificate answer), a repeated (subject, key) pair, a root that is not a CA or is beyond its own path-length limit, an intermediate that is itself in Roots, an AKID that selects candidates by key id, or an intermediate that can be arrived at from the leaf along two different prefixes (per-certificate memo: counted, and the 0-deviation PKI must still list a chain in every date class that holds one)",
 			"a chain returned twice inside one list is recorded, not flagged")
 
 		// the Entrust topology only does its job if the minted SPKI is byte-identical to the exempted one
